@@ -58,6 +58,15 @@ def _declare_synthetic():
         cls = type(L.NumericValue)(name, (L.NumericValue,), attrs)
         SYN.append((("harness", "SYN_BANK", name, 0xBD, first, len(types), list(types), "num", None), cls))
         first += len(types)
+    # locations declared in another order than ascending address (the class documentation allows it: the
+    # order is the order of the value's bytes): byte i of the data belongs to locations[i]
+    for name, offs in (("SynDescending", [1, 0]), ("SynShuffled", [2, 0, 1])):
+        locs = [first + o for o in offs]
+        attrs = {"bank": SYN_BANK, "locations": tuple(L.MemoryLocation(a, type_=L.MemoryType.NVM_RW) for a in locs)}
+        cls = type(L.NumericValue)(name, (L.NumericValue,), attrs)
+        SYN.append((("harness", "SYN_BANK", name, 0xBD, first, len(offs), ["NVM_RW"] * len(offs), "num",
+                     {"locs": locs}), cls))
+        first += len(offs)
 
 
 _declare_synthetic()
@@ -90,7 +99,7 @@ def h_write(ctx, vi, kind, fault_name, nbytes, force_unlock, ignore_feedback):
     tag = "%s/%s/%s" % (bname, name, kind)
     can, types = _writable(row)
     has_lock = BANKS[bname][3] or BANKS[bname][4]
-    locs = list(range(first, first + width))
+    locs = list(param["locs"]) if isinstance(param, dict) and "locs" in param else list(range(first, first + width))
     n = width if nbytes is None else nbytes
     data = [ctx.fresh("w%d" % i, 0, 255) for i in range(n)]
     image = {}
@@ -256,6 +265,30 @@ def h_write_value(ctx):
         st, r = bus.run(cls.write(1, val))
         ctx.prove(st == "exc" and not bus.frames, "write(%r) not refused before sending: %s %r" % (val, st, r),
                   key="writevalue/%s/bad:%r" % (cls.__name__, val if not isinstance(val, str) else val[:8]))
+    # the flags of write() reach write_raw() as what they are: force_unlock is not ignore_feedback
+    for cls, val in ((oem.LuminaireColor, "AB"), (oem.LuminaireIdentification, "C"), (oem.YearOfManufacture, 23)):
+        locs = [l.address for l in cls.locations]
+        for flags, faulty, expect in (({"force_unlock": True}, True, "raise"), ({"ignore_feedback": True}, True, "return"),
+                                      ({"force_unlock": True}, False, "stored"), ({}, True, "raise")):
+            image = {l: 0x11 for l in range(256)}
+            image[0] = 254
+            image[2] = 0xFF
+            bank = M.MemoryBank(image, 254, writable=lambda loc: "lock", has_lock=True, stuck_lock=faulty)
+            u = M.Unit("gear", short=1, banks={cls.bank.address: bank})
+            st, r = M.Bus([u]).run(cls.write(1, val, **flags))
+            key = "writevalue/%s/flags:%s:%s" % (cls.__name__, "+".join(sorted(flags)) or "none",
+                                                 "faulty" if faulty else "healthy")
+            if expect == "raise":
+                ctx.prove(st == "exc" and isinstance(r, (MemoryWriteError, ResponseError)),
+                          "write(%r, %r) to a unit that stays locked gave %s %r" % (val, flags, st, r), key=key)
+            elif expect == "return":
+                ctx.prove(st == "ok", "write(%r, %r) raised %r although feedback was to be ignored" % (val, flags, r),
+                          key=key)
+            else:
+                ctx.prove(st == "ok" and bank.image[2] != 0x55 and bank.image[locs[0]] != 0x11,
+                          "write(%r, %r) to a healthy unit: %s %r, lock byte %r" % (val, flags, st, r, bank.image[2]),
+                          key=key)
+            n += 1
     return "n=%d" % n
 
 
